@@ -97,8 +97,108 @@ static double do_call(const Call& c, Rec& rec)
 	return Integrate_MC(f, region, c.ncalls, c.method);
 }
 
+// an integration that does not run to completion: the integrand throws at its k-th evaluation and the caller catches;
+// `at_k` (optional) runs first at that evaluation (used for a call nested inside another call's integrand)
+struct Abandon
+{
+};
+static void do_call_abandoned(const Call& c, long long k, const std::function<void()>& at_k = nullptr)
+{
+	Rec rec;
+	rec.init(c.d);
+	g_seed = c.seed;
+	std::function<double(std::vector<double>&, const double)> f = [&](std::vector<double>& x, const double) {
+		rec.see(x.data());
+		if(rec.calls >= k)
+		{
+			if(at_k)
+				at_k();
+			throw Abandon();
+		}
+		return fam(c.fid, c.d, x.data(), c.p);
+	};
+	std::vector<double> region = c.region;
+	try
+	{
+		Integrate_MC(f, region, c.ncalls, c.method);
+	}
+	catch(const Abandon&)
+	{
+	}
+}
+
 std::string handle(const std::string& op, Args& a)
 {
+	if(op == "c14.histx")
+	{
+		// class D with histories that contain ABANDONED integrations (integrand throws, caller catches) and with the
+		// observed call made from INSIDE the integrand of another (then abandoned) integration:
+		//   <target>  nh  (C <call> | A <k> <call>)*   (T | N <k> <outer call>)
+		Call c	  = parse_call(a);
+		size_t nh = a.u64();
+		struct H
+		{
+			char mode;
+			long long k;
+			Call c;
+		};
+		std::vector<H> hist;
+		for(size_t i = 0; i < nh; i++)
+		{
+			H h;
+			std::string m = a.tok();
+			if(m != "C" && m != "A")
+				throw BadArgs("history mode");
+			h.mode = m[0];
+			h.k	   = m == "A" ? a.i64() : 0;
+			h.c	   = parse_call(a);
+			hist.push_back(h);
+		}
+		std::string fin = a.tok();
+		long long nk	= 0;
+		Call outer;
+		if(fin == "N")
+		{
+			nk	  = a.i64();
+			outer = parse_call(a);
+		}
+		else if(fin != "T")
+			throw BadArgs("final mode");
+		a.end();
+		std::string fresh = run_forked([&](Out& o) { Rec r; double v = do_call(c, r); o << v << r.calls; });
+		std::string after = run_forked([&](Out& o) {
+			Rec r;
+			for(auto& h : hist)
+			{
+				if(h.mode == 'C')
+					do_call(h.c, r);
+				else
+					do_call_abandoned(h.c, h.k);
+			}
+			double v = NAN;
+			bool ran = false;
+			if(fin == "T")
+			{
+				v	= do_call(c, r);
+				ran = true;
+			}
+			else
+			{
+				do_call_abandoned(outer, nk, [&]() { v = do_call(c, r); ran = true; });
+				if(!ran)	 // the outer call made fewer than nk evaluations
+				{
+					v	= do_call(c, r);
+					ran = true;
+				}
+			}
+			o << v << r.calls;
+		});
+		if(fresh.substr(0, 2) != "ok")
+			return fresh;
+		if(after.substr(0, 2) != "ok")
+			return after;
+		return "ok" + fresh.substr(2) + after.substr(2);
+	}
 	if(op == "c14.call")
 	{
 		// one call first in a fresh process: value, number of integrand calls, bounding box, first points
